@@ -147,9 +147,24 @@ struct GenCtx {
 
 /// Generate a whole history up front (it depends on the seed and the model only).
 pub fn gen_history(rng: &mut Rng, k: &Knobs) -> Vec<Op> {
-    let mut m = Model::default();
+    gen_history_from(rng, k, &Model::default())
+}
+
+/// Generate a history that continues from `start` (e.g. a recovered database).
+pub fn gen_history_from(rng: &mut Rng, k: &Knobs, start: &Model) -> Vec<Op> {
+    let mut m = start.clone();
     let mut out = Vec::new();
-    let mut cx = GenCtx { next_ext: 1000 + rng.below(1000), label_rich: rng.chance(0.5), ..Default::default() };
+    let max_ext = m.max_ext;
+    let mut cx = GenCtx {
+        next_ext: max_ext + 1000 + rng.below(1000),
+        label_rich: rng.chance(0.5),
+        ..Default::default()
+    };
+    if !start.g.nodes.is_empty() {
+        // continuation: the compaction history of the start state is unknown
+        cx.label_rich = false;
+        cx.compacted_once = true;
+    }
     let mut guard = 0;
     while out.len() < k.n_ops && guard < k.n_ops * 20 {
         guard += 1;
